@@ -56,11 +56,24 @@ func (er *ExchangeRate) Validate() error {
 	)
 }
 
-// Convert performs the currency conversion defined by the exchange rate.
+// Convert performs the currency conversion defined by the exchange rate. The
+// product of the amount and the rate is rounded once, directly to the precision
+// of the destination currency, whatever the precision of the amount provided.
 func (er *ExchangeRate) Convert(amount num.Amount) num.Amount {
-	a := amount.Multiply(er.Amount)
-	z := er.To.Def().Zero()
-	return a.Rescale(z.Exp()) // ensure scale always matches destination currency
+	exp := er.To.Def().Zero().Exp() // ensure scale always matches destination currency
+	rate := er.Amount
+	if amount.Exp() > exp {
+		// The amount is more precise than the destination currency: hand the
+		// extra decimals over to the rate so that the multiplication rounds
+		// straight to the destination precision instead of rounding twice.
+		extra := amount.Exp() - exp
+		rate = num.MakeAmount(rate.Value(), rate.Exp()+extra)
+		amount = num.MakeAmount(amount.Value(), exp)
+	}
+	// Multiply keeps the precision of its receiver: an amount with fewer
+	// decimals than the destination currency is raised first, otherwise the
+	// product would be rounded at the (coarser) precision of the amount.
+	return amount.RescaleUp(exp).Multiply(rate)
 }
 
 // MatchExchangeRate will attempt to find the matching exchange rate that
